@@ -23,20 +23,24 @@
 (*                               wrapper only (nfev = 0 when fun is None)  *)
 (*   CallbackFirst = TRUE      : callback invoked before the filter update *)
 (*   EscapeAtResult = TRUE     : CallbackSuccess not caught in best_eval   *)
+(*   HistKeepsOldest = TRUE    : a full history drops the newest entry     *)
+(*                               instead of the oldest (a seeded fault)    *)
 (***************************************************************************)
 EXTENDS CobyqaCore
 
 CONSTANTS MaxFev, MaxIter, Npt, HasObj, NCon, HasCb, Consistent, AllFixed,
           TargetKey,            \* key of the target: 0 (reachable) or NInf (never)
           FVals, CVals,         \* abstract objective / violation values
-          SamplingBudgetStatus, CountInObjective, CallbackFirst, EscapeAtResult
+          SamplingBudgetStatus, CountInObjective, CallbackFirst, EscapeAtResult,
+          Store, HSize,         \* store_history, history_size (0 = unbounded)
+          HistKeepsOldest       \* deviation: the truncation drops the newest entry
 
-VARIABLES pc, ph, cur, k, nitL, exitS, st, viol
-vars == <<pc, ph, cur, k, nitL, exitS, st, viol>>
+VARIABLES pc, ph, cur, k, nitL, exitS, st, viol, hist
+vars == <<pc, ph, cur, k, nitL, exitS, st, viol, hist>>
 
 H == [n |-> 1, lb |-> <<NInf>>, ub |-> <<PInf>>, consistent |-> Consistent,
       fixed |-> <<FALSE>>, allfixed |-> AllFixed, maxfev |-> MaxFev, maxiter |-> MaxIter,
-      npt |-> Npt, hsize |-> 0, fsize |-> 0, store |-> FALSE, hasobj |-> HasObj,
+      npt |-> Npt, hsize |-> HSize, fsize |-> 0, store |-> Store, hasobj |-> HasObj,
       ncon |-> NCon, hascb |-> HasCb, cbsig |-> "kw", kTol |-> 0, kTarget |-> TargetKey,
       kPInf |-> PInf, kNInf |-> NInf, kBarP |-> 500, kBarN |-> -500, kZero |-> 0,
       valid |-> TRUE, pure |-> TRUE, enhBound |-> 0]
@@ -53,7 +57,7 @@ MeritsOf(F, CV, pen) == [i \in DOMAIN F |-> AddA(F[i], MulA(pen, CV[i]))]
 Init ==
   /\ pc = "Start" /\ ph = "NONE" /\ cur = NoCur /\ k = 0 /\ nitL = 0
   /\ exitS = [status |-> 99, succ |-> FALSE]
-  /\ st = InitState(H) /\ viol = {}
+  /\ st = InitState(H) /\ viol = {} /\ hist = <<>>
 
 (* ------------------------------------------------------------ evaluation *)
 \* begin an evaluation at site s; afterwards control returns through AfterEval
@@ -65,13 +69,14 @@ BeginEval(s) ==
     /\ Emit([e |-> "EB", site |-> s, xin |-> PointOf(st.nev + 1), loW |-> <<NInf>>,
              hiW |-> <<PInf>>, bfeas |-> Consistent])
     /\ pc' = IF HasObj THEN "Obj" ELSE IF NCon > 0 THEN "Con" ELSE IF HasCb THEN "Cb" ELSE "EE"
-    /\ UNCHANGED <<k, nitL, exitS>>
+    /\ UNCHANGED <<k, nitL, exitS, hist>>
 
 ObjCall ==
   /\ pc = "Obj"
   /\ Emit([e |-> "Obj", inwin |-> TRUE, x |-> PointOf(st.nev + 1), v |-> cur.f])
   /\ pc' = IF NCon > 0 THEN "Con" ELSE IF HasCb THEN "Cb" ELSE "EE"
   /\ UNCHANGED <<ph, cur, k, nitL, exitS>>
+  /\ UNCHANGED hist
 
 ConCall ==
   /\ pc = "Con"
@@ -80,6 +85,7 @@ ConCall ==
        /\ Emit([e |-> "Con", j |-> j, inwin |-> TRUE, x |-> PointOf(st.nev + 1)])
        /\ pc' = IF j < NCon THEN "Con" ELSE IF HasCb THEN "Cb" ELSE "EE"
   /\ UNCHANGED <<ph, cur, k, nitL, exitS>>
+  /\ UNCHANGED hist
 
 \* the filter as it is when the callback runs
 FiltAtCb ==
@@ -100,6 +106,7 @@ CbCall ==
               haswould |-> FALSE, would |-> <<>>, wouldf |-> NaN])
   /\ pc' = "EE"
   /\ UNCHANGED <<ph, cur, k, nitL, exitS>>
+  /\ UNCHANGED hist
 
 EvalEnd ==
   /\ pc = "EE"
@@ -112,6 +119,11 @@ EvalEnd ==
               exc |-> IF cur.stop THEN "CallbackSuccess" ELSE "none",
               merit |-> IF HasCb THEN MeritsOf(F1, C1, cur.pen) ELSE <<>>])
   /\ pc' = "After"
+  /\ hist' = IF ~Store THEN hist
+             ELSE LET h1 == Append(hist, <<cur.f, cur.cv>>)
+                  IN IF HSize > 0 /\ Len(h1) > HSize
+                     THEN (IF HistKeepsOldest THEN SubSeq(h1, 1, HSize) ELSE Tail(h1))
+                     ELSE h1
   /\ UNCHANGED <<ph, cur, k, nitL, exitS>>
 
 (* ------------------------------------------------------- control flow *)
@@ -126,6 +138,7 @@ Start ==
      ELSE IF AllFixed THEN /\ pc' = "ResultEval" /\ exitS' = [status |-> 2, succ |-> TRUE]
      ELSE /\ pc' = "Sample" /\ UNCHANGED exitS
   /\ UNCHANGED <<ph, cur, k, nitL, st, viol>>
+  /\ UNCHANGED hist
 
 \* best_eval on an empty filter evaluates the initial guess
 ResultEval == pc = "ResultEval" /\ BeginEval("RESULT")
@@ -139,6 +152,7 @@ Sample ==
      ELSE IF k >= MaxFev THEN
         Exit(SamplingBudgetStatus, FALSE) /\ UNCHANGED <<ph, cur, k, nitL, st, viol>>
      ELSE BeginEval("INIT")
+  /\ UNCHANGED hist
 
 After ==
   /\ pc = "After"
@@ -157,6 +171,7 @@ After ==
           /\ \/ ph = "TR" /\ pc' \in {"SOC", "Update"}
              \/ ph = "SOC" /\ pc' = "Update"
              \/ ph = "GEO" /\ pc' = "IterTop"
+  /\ UNCHANGED hist
 
 IterTop ==
   /\ pc = "IterTop"
@@ -165,6 +180,7 @@ IterTop ==
           /\ Emit([e |-> "It"])
           /\ pc' \in {"Short", "Normal"}
           /\ UNCHANGED <<ph, cur, k, exitS>>
+  /\ UNCHANGED hist
 
 \* trust-region step too short: reduce the radius, then enhance / improve / neither
 Short ==
@@ -173,22 +189,24 @@ Short ==
      \/ Exit(-2, FALSE)
   /\ IF pc' = "Result" THEN UNCHANGED <<ph, cur, k, nitL, st, viol>>
      ELSE UNCHANGED <<ph, cur, k, nitL, exitS, st, viol>>
+  /\ UNCHANGED hist
 
 \* increase_penalty may change the centre: then the iteration restarts
 Normal ==
   /\ pc = "Normal"
   /\ \/ pc' = "IterTop" /\ UNCHANGED <<ph, cur, k, nitL, exitS, st, viol>>
      \/ pc' = "EvalTR" /\ UNCHANGED <<ph, cur, k, nitL, exitS, st, viol>>
+  /\ UNCHANGED hist
 
 BudgetOr(site) ==
   IF (IF CountInObjective /\ ~HasObj THEN 0 ELSE st.nev) >= MaxFev
-  THEN Exit(5, FALSE) /\ UNCHANGED <<ph, cur, k, nitL, st, viol>>
+  THEN Exit(5, FALSE) /\ UNCHANGED <<ph, cur, k, nitL, st, viol, hist>>
   ELSE BeginEval(site)
 
 EvalTR  == pc = "EvalTR" /\ BudgetOr("TR")
 SOC     == pc = "SOC" /\ BudgetOr("SOC")
 Geometry == pc = "Geometry" /\ \/ BudgetOr("GEO")
-                               \/ Exit(-2, FALSE) /\ UNCHANGED <<ph, cur, k, nitL, st, viol>>
+                               \/ Exit(-2, FALSE) /\ UNCHANGED <<ph, cur, k, nitL, st, viol, hist>>
 
 \* index choice, model update, radius update, multipliers; then the decision
 Update ==
@@ -196,12 +214,14 @@ Update ==
   /\ \/ pc' \in {"Enhance", "Geometry", "IterTop"} /\ UNCHANGED exitS
      \/ Exit(-2, FALSE)
   /\ UNCHANGED <<ph, cur, k, nitL, st, viol>>
+  /\ UNCHANGED hist
 
 Enhance ==
   /\ pc = "Enhance"
   /\ \/ Exit(0, TRUE)                                   \* resolution already final
      \/ pc' \in {"Geometry", "IterTop"} /\ UNCHANGED exitS
   /\ UNCHANGED <<ph, cur, k, nitL, st, viol>>
+  /\ UNCHANGED hist
 
 \* _build_result
 Result ==
@@ -217,16 +237,19 @@ Result ==
            nf == IF CountInObjective /\ ~HasObj THEN 0 ELSE st.nev
        IN Emit([e |-> "Res", well |-> TRUE, status |-> s, midx |-> s, hasfw |-> TRUE,
                 resol |-> 7, rhoend |-> 7, f |-> f, cv |-> cv, nfev |-> nf, nit |-> nitL,
-                success |-> ok, hashist |-> FALSE, hf |-> <<>>, hc |-> <<>>,
+                success |-> ok, hashist |-> Store,
+                hf |-> [i \in 1..Len(hist) |-> hist[i][1]], hc |-> [i \in 1..Len(hist) |-> hist[i][2]],
                 x |-> PointOf(b), merit |-> M])
   /\ pc' = "Done"
   /\ UNCHANGED <<ph, cur, k, nitL, exitS>>
+  /\ UNCHANGED hist
 
 Escaped ==
   /\ pc = "Escaped"
   /\ Emit([e |-> "Raise", type |-> "CallbackSuccess"])
   /\ pc' = "Done"
   /\ UNCHANGED <<ph, cur, k, nitL, exitS>>
+  /\ UNCHANGED hist
 
 Next ==
   \/ Start \/ ResultEval \/ Sample \/ ObjCall \/ ConCall \/ CbCall \/ EvalEnd \/ After
